@@ -28,6 +28,7 @@ import MdModel.Walk.Layout
 import MdModel.Walk.WinWalk
 import MdModel.Walk.LayoutMixed
 import MdModel.Walk.LayoutGen
+import MdModel.Walk.LayoutGenScan
 namespace MdModel.Walk
 open MdModel MdModel.Proto
 
@@ -79,7 +80,9 @@ def parseWins (mods : List Module) (field : String) : Option (List (List Win.Rec
     of the C04 theorems on a generated case;
     `chain walk win:<records> <walk fields>`: the walk itself with STACK WIN records present;
     `chain layout fp <base> <s0> <f0> <tail> <gap:ret,..|->`: the generator's x86-64 frame-pointer layout;
-    `chain layout fpg <arch> <base> <s0> <f0> <tail> <gap:ret,..|->`: the same generically in the architecture -/
+    `chain layout fpg <arch> <base> <s0> <f0> <tail> <gap:ret,..|->`: the same generically in the architecture;
+    `chain layout cfi <base> <s0> <tail> <n:saves:ret:fpv,..> <walk fields>`: the canonical STACK CFI layout;
+    `chain layout scan <base> <s0> <tail> <junk.junk..:ret,..> <walk fields>`: the scan-only layout (`-`: no junk) -/
 def handleChain (args : List String) : String :=
   match args with
   | "walk" :: win :: rest =>
@@ -122,6 +125,78 @@ def handleChain (args : List String) : String :=
         s!"sp={pAddr a.ptr b s} fp={pAddr a.ptr b f} stack:{hex (wordsMemP a.ptr b (gfpWords a.ptr b f t cs)).bytes.toList} exp:{"|".intercalate ((gfpChain a.ptr b f cs).map showExp)}"
       else "bad-op"
     | _, _, _, _, _, _ => "bad-op"
+  | "layout" :: "cfi" :: base :: s0 :: tail :: frames :: rest =>
+    -- the canonical STACK CFI generator's layout (`gcfiWords` / `gcfiChain`, Walk/LayoutGen.lean) as a
+    -- function of its parameters; `rest` = the walk fields of the generated case, of which the context,
+    -- module list and symbol records are used (NOT the stack bytes beyond their base); `hyp` = every
+    -- hypothesis of `walk_layout_cfi_generated` (MdProofs/C04Gen.lean) evaluated on these parameters
+    let fs : Option (List CfiFr) :=
+      if frames = "-" then some []
+      else (pieces frames ",").mapM fun c =>
+        match c.splitOn ":" with
+        | [n, sv, r, f] => do
+          let n ← optNat n; let r ← optNat r; let f ← optNat f
+          if n ≤ 4096 ∧ (sv = "0" ∨ sv = "1") then some { n := n, saves := sv = "1", ret := r, fpv := f } else none
+        | _ => none
+    match parseRequestBe rest, optNat base, optNat s0, optNat tail, fs with
+    | some r, some b, some s, some t, some fs =>
+      if b ≤ U64MAX ∧ s ≤ 4096 ∧ t ≤ 4096 ∧ !(r.mem.map (·.be)).getD false then
+        let a := r.arch
+        let ws := gcfiWords s t fs
+        let m := wordsMemP a.ptr b ws
+        let mask := (mkEnv a r.os r.world m).mask
+        let fp0 := r.ctx.raw a a.fpName
+        let hyp :=
+          decide (effArch a r.ctx = a) && r.ctx.valid.isNone && decide (r.ctx.sp = pAddr a.ptr b s) &&
+          decide (16 < b) && decide (b + a.ptr * ws.length ≤ a.regMax) && decide (s < ws.length) &&
+          decide (stripOf a mask fp0 = fp0) && gcfiSide r.world a r.ctx.ip true fs && gcfiFramesOk a mask fs &&
+          (match fs with
+           | c :: _ => c.n != 0 || decide (r.ctx.raw a (if a.isMips then "ra" else "lr") = c.ret)
+           | [] => true) &&
+          (t == 0 || gcfiLastFp fp0 fs == 0)
+        let showExp := fun (e : Exp) => s!"{e.ret},{e.sp},{(e.fp.map toString).getD "-"}"
+        -- worlds of one module: the side condition from record-level facts (`gcfiSide_one_module`)
+        let one := match r.world.mods, r.world.syms with
+          | [md], [some sf] => if oneModOkB md sf && gcfiSideOne md sf a r.ctx.ip true fs then "1" else "0"
+          | _, _ => "-"
+        -- any number of modules: `gcfiSide_world`
+        let recs := worldOkB r.world && gcfiSideW r.world a r.ctx.ip true fs
+        s!"hyp={if hyp then 1 else 0} one={one} rec={if recs then 1 else 0} sp={pAddr a.ptr b s} stack:{hex m.bytes.toList} exp:{"|".intercalate ((gcfiChain a.ptr b s fp0 fs).map showExp)}"
+      else "bad-op"
+    | _, _, _, _, _ => "bad-op"
+  | "layout" :: "scan" :: base :: s0 :: tail :: frames :: rest =>
+    -- the scan-only generator's layout (`gscanWords` / `gscanChain`, Walk/LayoutGenScan.lean) as a function
+    -- of its parameters; `rest` = the walk fields of the generated case, of which the context, module list
+    -- and symbol records are used; `hyp` = every hypothesis of `walk_layout_scan_generated` /
+    -- `walk_layout_scan_generated32` (MdProofs/C04Gen.lean) evaluated on these parameters
+    let fs : Option (List ScFr) :=
+      if frames = "-" then some []
+      else (pieces frames ",").mapM fun c =>
+        match c.splitOn ":" with
+        | [j, r] => do
+          let r ← optNat r
+          let j ← if j = "-" then some [] else (j.splitOn ".").mapM optNat
+          if j.length ≤ 4096 then some { junk := j, ret := r } else none
+        | _ => none
+    match parseRequestBe rest, optNat base, optNat s0, optNat tail, fs with
+    | some r, some b, some s, some t, some fs =>
+      if b ≤ U64MAX ∧ s ≤ 4096 ∧ t ≤ 4096 ∧ !(r.mem.map (·.be)).getD false then
+        let a := r.arch
+        let ws := gscanWords s t fs
+        let m := wordsMemP a.ptr b ws
+        let env := mkEnv a r.os r.world m
+        let wide := a == .arm64 || a == .arm64old || a == .mips64
+        let hyp :=
+          noCfi r.world && r.ctx.valid.isNone && decide (r.ctx.sp = pAddr a.ptr b s) &&
+          decide (r.ctx.raw a a.fpName = 0) && !(a == .arm && r.os == .ios) &&
+          (if wide then (a != .mips64 || r.ctx.m64) else !r.ctx.m64 && decide (4096 ≤ b) && decide (s ≤ ws.length)) &&
+          decide (0 < ws.length) && decide (b + a.ptr * ws.length ≤ a.regMax) && gscanFramesOk env a true fs
+        let showExp := fun (e : Exp) => s!"{e.ret},{e.sp},{(e.fp.map toString).getD "-"}"
+        -- `gscanFramesOk_of_junk`: module bases `≥ 4096` and the junk words `< 4096`
+        let junk := r.world.mods.all (fun md => decide (4096 ≤ md.base)) && gscanFramesOkJ env a true fs
+        s!"hyp={if hyp then 1 else 0} junk={if junk then 1 else 0} sp={pAddr a.ptr b s} stack:{hex m.bytes.toList} exp:{"|".intercalate ((gscanChain a.ptr b s fs).map showExp)}"
+      else "bad-op"
+    | _, _, _, _, _ => "bad-op"
   | "pre" :: tech :: exp :: rest =>
     let (win, rest) := match rest with
       | f :: more => if f.startsWith "win:" then (f, more) else ("win:-", rest)
